@@ -639,3 +639,97 @@ func reflectKindOf(t types.Type) int {
 	}
 	return -1
 }
+
+// sliceLines keeps the path lines (declarations, definitions, assumptions) that are connected to
+// the goal through shared non-logical symbols (relevancy slicing).  Dropping assumptions only weakens
+// the hypotheses, so "unsat" on the slice is a proof of the full obligation; it also keeps axioms that
+// belong to unrelated parts of the path (e.g. boxing of logging arguments) out of the query, which is
+// what lets the solvers return models.
+func (sn *ctxSnap) sliceLines(lines []string, goal string) []string {
+	known := map[string]bool{}
+	for _, n := range sn.declName {
+		known[n] = true
+	}
+	type ln struct {
+		text string
+		syms map[string]bool
+		def  string // symbol introduced by a declare-const / define-fun
+	}
+	ls := make([]ln, len(lines))
+	for i, l := range lines {
+		m := map[string]bool{}
+		smtTokens(l, m)
+		d := ""
+		if strings.HasPrefix(l, "(declare-const ") || strings.HasPrefix(l, "(define-fun ") {
+			f := strings.Fields(l)
+			if len(f) > 1 {
+				d = f[1]
+				known[d] = true
+			}
+		}
+		ls[i] = ln{l, m, d}
+	}
+	// transitive symbol closure of definitions, so that an assumption about a defined name is
+	// connected to everything that definition talks about
+	deps := map[string]map[string]bool{}
+	for i := range ls {
+		l := &ls[i]
+		full := map[string]bool{}
+		for s := range l.syms {
+			full[s] = true
+			for t := range deps[s] {
+				full[t] = true
+			}
+		}
+		if l.def != "" && strings.HasPrefix(l.text, "(define-fun ") {
+			deps[l.def] = full
+		}
+		if l.def == "" {
+			l.syms = full
+		}
+	}
+	need := map[string]bool{}
+	gm := map[string]bool{}
+	smtTokens(goal, gm)
+	for s := range gm {
+		if known[s] {
+			need[s] = true
+		}
+	}
+	in := make([]bool, len(ls))
+	for changed := true; changed; {
+		changed = false
+		for i, l := range ls {
+			if in[i] {
+				continue
+			}
+			take := false
+			if l.def != "" {
+				take = need[l.def]
+			} else {
+				for s := range l.syms {
+					if need[s] {
+						take = true
+						break
+					}
+				}
+			}
+			if take {
+				in[i] = true
+				changed = true
+				for s := range l.syms {
+					if known[s] && !need[s] {
+						need[s] = true
+					}
+				}
+			}
+		}
+	}
+	var out []string
+	for i, l := range ls {
+		if in[i] {
+			out = append(out, l.text)
+		}
+	}
+	return out
+}
